@@ -39,6 +39,9 @@ def _limit_memory():
     # a runaway allocation in a harness run must abort that process, not the machine
     import resource
     lim = 24 * 1024 ** 3
+    _, hard = resource.getrlimit(resource.RLIMIT_AS)
+    if hard != resource.RLIM_INFINITY:
+        lim = min(lim, hard)   # already running under a tighter `ulimit -v`: keep that one
     resource.setrlimit(resource.RLIMIT_AS, (lim, lim))
 
 
